@@ -233,10 +233,13 @@ def cases(tier):
             out.append((backend, path, "__resigned__", 0, 0, tier))
         for bn in bnames:
             out.append((backend, "ws", "__primed__" + bn, 0, 0, tier))
+    out += SCHEDMODE.cases(tier)
     return out
 
 
 def describe(case):
+    if case[0] == "sched":
+        return SCHEDMODE.describe(case)
     return {"backend": case[0], "path": case[1], "base": case[2], "lo": case[3], "hi": case[4], "tier": case[5]}
 
 
@@ -300,7 +303,57 @@ def check_one(sess, backend, path, name, ev, viol, cid, primed=False):
     return acked
 
 
+# ---------------------------------------------------------------------------------------------------
+# Two connections at once (SCHED): a forged copy and the genuine event carrying the same id are in flight together.
+from ..schedmode import SchedMode  # noqa: E402
+
+S_GEN = make_event("A", 1, 1100, [["t", "race"]], "genuine")
+S_FORGED_SIG = dict(S_GEN, sig=S_GEN["sig"][:-2] + ("00" if S_GEN["sig"][-2:] != "00" else "01"))
+S_FORGED_CONTENT = dict(S_GEN, content="forged: same id and sig, other content")
+S_SCRIPTS = {
+    "forged_sig_then_genuine": [("c1", ["REQ", "x", {"kinds": [1]}]), ("c2", ["EVENT", S_FORGED_SIG]), ("c3", ["EVENT", S_GEN])],
+    "genuine_then_forged_content": [("c1", ["REQ", "x", {"kinds": [1]}]), ("c2", ["EVENT", S_GEN]), ("c3", ["EVENT", S_FORGED_CONTENT])],
+    "forged_content_then_genuine": [("c1", ["REQ", "x", {"kinds": [1]}]), ("c2", ["EVENT", S_FORGED_CONTENT]), ("c3", ["EVENT", S_GEN])],
+}
+
+
+def _s_build(name, backend, policy):
+    from ..explorer import Scenario
+
+    return Scenario("%s%s|%s" % (name, "@fair" if policy == "fair" else "", backend), backend, [("c1", "1.1.1.1"), ("c2", "2.2.2.2"), ("c3", "3.3.3.3")],
+                    S_SCRIPTS[name], storage_options={"stats_interval": 1e15}, horizon=30.0, policy=policy)
+
+
+def _s_judge(x, name, backend, viol, cid, sig):
+    w = x.world
+    for cn, fr in S_SCRIPTS[name]:
+        if fr[0] != "EVENT":
+            continue
+        ev = fr[1]
+        if R.authentic(ev)[0]:
+            continue
+        for k, _, p in w.conns[cn].transcript:
+            if k == "send" and p.startswith('["OK"'):
+                m = json.loads(p)
+                if m[2] is True:
+                    viol.append({"case": cid, "clause": "ack-only-authentic", "sig": sig + "|" + cn,
+                                 "detail": "the forged copy (%s) was acknowledged true while the genuine event was in flight on another connection" % R.authentic(ev)[1]})
+    for k, _, p in w.conns["c1"].transcript:
+        if k == "send" and p.startswith('["EVENT"'):
+            pe = json.loads(p)[2]
+            if not R.authentic(pe)[0]:
+                viol.append({"case": cid, "clause": "push-only-authentic", "sig": sig, "detail": "pushed event is not authentic (%s)" % R.authentic(pe)[1]})
+    for i, se in store.decode_store(backend, w.dump()).items():
+        if not R.authentic(se)[0]:
+            viol.append({"case": cid, "clause": "store-only-authentic", "sig": sig, "detail": "stored record %s is not authentic (%s)" % (i[:8], R.authentic(se)[1])})
+
+
+SCHEDMODE = SchedMode(S_SCRIPTS, _s_build, _s_judge)
+
+
 def run_case(case):
+    if case[0] == "sched":
+        return SCHEDMODE.run(case)
     backend, path, bn, lo, hi, tier = case
     sess = seq.session(backend)
     viol = []
@@ -349,12 +402,13 @@ def run_case(case):
 
 def coverage(tier, agg):
     return {
-        "rule": "9 valid base events (ephemeral, plain, tagged, unicode content, NIP-26 delegated, replaceable, deletion, parameterized replaceable with a bare d tag, one signed by the relay's service key) x [identity + %d single mutation "
+        "rule": ("9 valid base events (ephemeral, plain, tagged, unicode content, NIP-26 delegated, replaceable, deletion, parameterized replaceable with a bare d tag, one signed by the relay's service key) x [identity + %d single mutation "
                 "operators + %s pairs of operators on distinct fields] + %d re-signed structurally wrong variants (forged/transplanted/"
                 "wrong-condition/truncated/bare/non-string delegation, string kind, wrong signer, upper-case pubkey, malformed tags with a "
                 "consistent id and a signature that fails only inside verification), x {websocket EVENT, direct add_event} x {sql, kv}; all single "
                 "mutations and re-signed variants once more right after a genuine event was acknowledged on the same connection; oracle: OK=true only for authentic submissions, every pushed event and every stored record is authentic under an "
-                "independent strict verifier; authentic submissions are accepted (non-vacuity)" % (
+                "independent strict verifier; authentic submissions are accepted (non-vacuity)" + SCHEDMODE.rule() + ": a forged copy (bad signature / other content under "
+                "the same id and sig) and the genuine event are in flight on two connections at once; the forged copy is never acknowledged true, pushed or stored") % (
                     len(OPS()), "all" if tier == "thorough" else "every 5th of the", len(resigned_variants())),
         "operators": sorted(OPS()),
         "backends": ["sql", "kv"],
@@ -362,6 +416,11 @@ def coverage(tier, agg):
 
 
 def replay(desc):
+    if desc.get("mode") == "sched":
+        r = run_case(SCHEDMODE.from_desc(desc))
+        for v in r["viol"][:30]:
+            print(v["clause"], v["detail"])
+        return r["viol"]
     r = run_case((desc["backend"], desc["path"], desc["base"], desc["lo"], desc["hi"], desc.get("tier", "quick")))
     for v in r["viol"][:30]:
         print(v["clause"], v["detail"])
